@@ -133,7 +133,7 @@ func runR062(c *core.Ctx) {
 		return true
 	})
 	c.Check(recPos != token.NoPos && recPos > readMapPos, rel, "readRecord", "missing required fields are recorded after the map was read", rr.Pos(), "", "recordMissingRequiredFields is not called on the success path after ReadMap")
-	c.Check(chkGuard && startVar != nil && startVar.Pos() < readMapPos, rel, "readRecord", "the missing-fields error is raised exactly by the record that started at input start", rr.Pos(), "",
+	c.Check(chkGuard && startVar != nil && core.ObjPos(startVar) < readMapPos, rel, "readRecord", "the missing-fields error is raised exactly by the record that started at input start", rr.Pos(), "",
 		"checkMissingFields is not guarded by the atInputStart snapshot taken before reading")
 	// delegation
 	rrF := mustFunc(c, rel, "readRecord")
